@@ -8,12 +8,11 @@ From Verif Require Import Base Scope Types Prog Pop Token Authorize System Confi
 Require Import Verif.Corr.C07 Verif.Corr.C11.
 Local Open Scope N_scope.
 
-(* the c11jar suite sends no request objects to /bc-authorize *)
 Definition gop_of (o : jop) : gop :=
   match o with
   | JAuthorize q => GAuthorize q
   | JPar r ob => GPar r ob
-  | JBc r _ => GBase (OpBcAuthorize r)
+  | JBc r ob => GBc r ob
   | JBase o => GBase o
   end.
 
@@ -47,7 +46,31 @@ Definition binding_missing (cfg : config) (cl : list client) (i : id) (p : param
 Definition source_missing (cfg : config) (cl : list client) (c : client) (p : params) : N :=
   match mech_missing cfg c p with 0 => binding_missing cfg cl (c_id c) p | k => k end.
 
-Definition clause_C11J (cfg : config) (cl : list client) (o : jop) (x : jobs) : N :=
+(* what an observer of the history knows about pushed requests: (request_uri, the client /par answered it to) *)
+Definition pushed_to (pushed_ : list (id * id)) (u i : id) : bool :=
+  existsb (fun p => andb (ideq (fst p) u) (ideq (snd p) i)) pushed_.
+Definition learn_C11J (pushed_ : list (id * id)) (o : jop) (x : jobs) : list (id * id) :=
+  match x with JObs y _ =>
+  match o, y with
+  | JPar r _, Out (OPar u) => (u, cr_id (pr_cred r)) :: pushed_
+  | JBase (OpPar r), Out (OPar u) => (u, cr_id (pr_cred r)) :: pushed_
+  | _, _ => pushed_
+  end end.
+
+(* pushed requests required (server, or the client where the server has PAR enabled) *)
+Definition par_required_for (cfg : config) (c : client) : bool :=
+  andb (cf_par_enabled cfg) (orb (cf_par_required cfg) (c_par_required c)).
+(* CIBA request objects required: by the server, or by the client's registered
+   backchannel_authentication_request_signing_alg where the server has CIBA JAR enabled *)
+Definition ciba_jar_required_for (cfg : config) (jcl : jclient) : bool :=
+  andb (cf_ciba_jar_enabled cfg)
+       (orb (cf_ciba_jar_required cfg) (match jc_ciba_alg jcl with Some _ => true | None => false end)).
+
+(* clause 13 = pushed requests are required and an authorization request obtained an artifact with a request_uri
+        that the pushed authorization endpoint did not hand to this client in this history: an https reference
+        to a request object (JAR by reference), an unknown urn, another client's request_uri *)
+Definition clause_C11J (cfg : config) (cl : list client) (jcls : list (id * jclient)) (pushed_ : list (id * id))
+    (o : jop) (x : jobs) : N :=
   match x with JObs y _ =>
   if negb (obs_obtains y) then 0 else
   match o with
@@ -56,6 +79,10 @@ Definition clause_C11J (cfg : config) (cl : list client) (o : jop) (x : jobs) : 
       match reg_client cl (ar_client r) with
       | None => 0
       | Some c =>
+        if andb (par_required_for cfg c) (is_ref (jq_jar q)) then 13 else
+        if andb (par_required_for cfg c)
+                (andb (negb (is_nil (p_request_uri (ar_params r))))
+                      (negb (pushed_to pushed_ (p_request_uri (ar_params r)) (ar_client r)))) then 13 else
         if negb (is_nil (p_request_uri (ar_params r))) then 0 else
         if object_in_effect cfg c q then
           match carried (jq_jar q) with
@@ -84,15 +111,25 @@ Definition clause_C11J (cfg : config) (cl : list client) (o : jop) (x : jobs) : 
         | None => clause_C11 cfg cl (OpPar r) y
         end
       end
-  | JBc r _ => clause_C11 cfg cl (OpBcAuthorize r) y
+  | JBc r None =>
+      (* clause 3, with the per-client switch: the client registered a CIBA request signing algorithm *)
+      if ciba_jar_required_for cfg (jclient_of jcls (cr_id (br_cred r))) then 3
+      else clause_C11 cfg cl (OpBcAuthorize r) y
+  | JBc r (Some ob) =>
+      (* a signed backchannel request (its authenticity is C07's subject): the openid scope is read in the object
+         when the object is in effect *)
+      if should_use_jar_ciba cfg (jclient_of jcls (cr_id (br_cred r))) true then
+        (if andb (cf_openid_required cfg) (negb (contains_openid (p_scopes (inside ob)))) then 5 else 0)
+      else clause_C11 cfg cl (OpBcAuthorize r) y
   | JBase o' => clause_C11 cfg cl o' y
   end end.
 
-Fixpoint drive_C11J (cfg : config) (cl : list client) (k : nat) (ops : list jop) (xs : list jobs) : N :=
+Fixpoint drive_C11J (cfg : config) (cl : list client) (jcls : list (id * jclient)) (pushed_ : list (id * id))
+    (k : nat) (ops : list jop) (xs : list jobs) : N :=
   match ops, xs with
   | o :: ops', x :: xs' =>
-      match clause_C11J cfg cl o x with
-      | 0 => drive_C11J cfg cl (S k) ops' xs'
+      match clause_C11J cfg cl jcls pushed_ o x with
+      | 0 => drive_C11J cfg cl jcls (learn_C11J pushed_ o x) (S k) ops' xs'
       | c => c * 1000 + N.of_nat (S k)
       end
   | _, _ => 0
@@ -100,6 +137,6 @@ Fixpoint drive_C11J (cfg : config) (cl : list client) (k : nat) (ops : list jop)
 
 Definition mon_C11J (c : jarcase) : N :=
   match build (jk_profile c) (jk_opts c) with
-  | Some cfg => drive_C11J cfg (jk_static c) 0%nat (jk_ops c) (jk_obs c)
+  | Some cfg => drive_C11J cfg (jk_static c) (jk_jclients c) [] 0%nat (jk_ops c) (jk_obs c)
   | None => 0
   end.
